@@ -41,3 +41,7 @@ _kernel("C09", "kernel_expiry", "expiry", ("async", "sync"),
         symbolic="the instant t0 at which the response is closed, a later instant t1, keepalive_expiry (>= 0 or None) and the previous deadline: REAL numbers; h11's two state variables; whether the socket is readable",
         bounds="UNBOUNDED and real-valued: HTTP11Connection._response_closed() followed by has_expired(): idle and expired exactly when t1 > t0 + expiry or the socket is readable after a complete exchange, closed otherwise",
         outside="the HTTP/2 twin of the arithmetic (E1 C09.expiry with unbounded integers)", also=("C16",))
+_kernel("C02", "kernel_interim", "interim", ("async", "sync"),
+        symbolic="a sequence of up to 6 h11 events: each one's class (final or informational response) and status code (any integer allowed for its class), version, reason",
+        bounds="HTTP11Connection._receive_response_headers, loop unwound to 6 events with an unwinding assertion: the event returned is the first final response (or 101), all its fields are its own, every interim response before it is skipped",
+        outside="more than 5 interim responses before the final one; the h11 parser itself (native, C02.h1_segmentation)", also=("C01",))
